@@ -160,25 +160,4 @@ Proof.
   destruct (preimages z w); [contradiction|reflexivity].
 Qed.
 
-Lemma on_offset_utcoffset : forall w o, on_offset z w o = true -> dt_utcoffset d w false = Ok o.
-Proof.
-  intros w o H. unfold on_offset in H. destruct (utc_of_spec z w false) as [u|] eqn:E; [|discriminate].
-  pose proof (fold_selects_lemma w false u E) as Hu.
-  rewrite (bridge_to_utc d Hgood Hwf) in Hu. rewrite (bridge_dt_utcoffset d Hgood Hwf).
-  assert (Hl : local z u = w). { apply pre_in. apply min_list_in. exact E. }
-  unfold local in Hl. f_equal.
-  assert (H1 : w - A_utcoffset p tr w false = u) by congruence. lia.
-Qed.
-
-Theorem resolve_gap_lemma : forall w f, preimages z w = [] -> isolated z w = true ->
-  exists g, gap_width z w = Some g /\ resolve_imaginary d w f = Ok (w + g, false) /\ resolve_spec z w = w + g.
-Proof.
-  intros w f Hp Hi. unfold isolated in Hi. unfold gap_width, resolve_spec. rewrite Hp. unfold gap_width.
-  destruct (gap_at z w) as [[a b]|] eqn:Eg; [|discriminate].
-  apply andb_prop in Hi. destruct Hi as [H1 H2].
-  exists (b - a). split; [reflexivity|]. split; [|reflexivity].
-  unfold resolve_imaginary. rewrite exists_iff_lemma, Hp. cbn [bind].
-  rewrite (on_offset_utcoffset _ _ H1). cbn [bind]. rewrite (on_offset_utcoffset _ _ H2). reflexivity.
-Qed.
-
 End Final.
